@@ -35,6 +35,20 @@ func (op *PRelu) Apply(inputs []tensor.Tensor) ([]tensor.Tensor, error) {
 		return nil, err
 	}
 
+	// The backing of a scalar is not a slice; calculate on one-element vectors instead.
+	isScalar := len(x.Shape()) == 0
+	if isScalar {
+		x, err = ops.AddExtraDimsToTensor(x, 1)
+		if err != nil {
+			return nil, err
+		}
+
+		slope, err = ops.AddExtraDimsToTensor(slope, 1)
+		if err != nil {
+			return nil, err
+		}
+	}
+
 	y := tensor.NewDense(x.Dtype(), x.Shape())
 
 	switch x.Dtype() {
@@ -56,6 +70,12 @@ func (op *PRelu) Apply(inputs []tensor.Tensor) ([]tensor.Tensor, error) {
 
 	if err != nil {
 		return nil, err
+	}
+
+	if isScalar {
+		if err := y.Reshape(); err != nil {
+			return nil, err
+		}
 	}
 
 	return []tensor.Tensor{y}, nil
